@@ -462,6 +462,14 @@ fn stream_total(g: &mut Gen, thorough: bool, maxlen: usize, rng: &mut Rng)
 	{
 		g.emit(format!("P {}", hex_bytes(txt.as_bytes())));
 	}
+	// audit corpus: (a) invalid UTF-8 under the parser (every generated text is valid UTF-8): the BadUnicode error arrives
+	// through peek / next at each parser state, eof positions with a pending error; (b) a closer accepted in the place of ';'
+	for txt in [&b"\xff"[..], b"a\xff", b"a \xff", b"a 1 \xff", b"a 1 + \xff", b"a ( \xff", b"a [ \xff", b"a { \xff", b". \xff", b".d \xff", b".d 1 \xff", b"a: \xff",
+		b"a 1, \xff", b"a f( \xff", b"a f(1 \xff", b"a f \xff", b"a - \xff", b"a 1;\xff", b"a 1; \n\xff", b"a //c\xff", b"a /*c\xff", b"a \"s\xff", b"a 'c\xff", b"a 0x\xff", b"a b\xff",
+		b"a b )", b".d a )", b".d a ]", b"a 1 }x;", b"a b ) c;", b"a f(1 ] ;", b"a [1);", b"a {1];", b"a (1};", b"a\n '", b"a 1\n,\n'", b"a (\n'", b"a f\n(1);", b"a f/*c*/(1);", b"a 1(2);", b"a \"s\"(1);"]
+	{
+		g.emit(format!("P {}", hex_bytes(txt)));
+	}
 	let mut idx = vec![0usize; 0];
 	for len in 0..=maxlen
 	{
